@@ -103,10 +103,28 @@ impl<'g> Vocab<'g> {
 
 fn id_tok(t: &str) -> Option<u32> { t.strip_prefix('%')?.parse().ok() }
 
+/// `[-]0x1[.hhh]p[+-]d` -> IEEE bits (normal numbers, infinities and NaNs in spirv-dis style); None if not of that form
+fn hex_float_bits(t: &str, double: bool) -> Option<u64> {
+    let (neg, r) = match t.strip_prefix('-') { Some(r) => (true, r), None => (false, t) };
+    let r = r.strip_prefix("0x").or_else(|| r.strip_prefix("0X"))?;
+    let (mant, exp) = r.split_once(|c| c == 'p' || c == 'P')?;
+    let exp: i64 = exp.parse().ok()?;
+    let (int, frac) = match mant.split_once('.') { Some((a, b)) => (a, b), None => (mant, "") };
+    if int != "1" { return None; }
+    let (ebits, fbits, bias) = if double { (11u32, 52u32, 1023i64) } else { (8, 23, 127) };
+    let mut f: u64 = 0; let mut n = 0u32;
+    for c in frac.chars() { let d = c.to_digit(16)? as u64; if n + 4 <= 64 - 4 { f = (f << 4) | d; n += 4; } }
+    let f = if n >= fbits { f >> (n - fbits) } else { f << (fbits - n) };
+    let e = exp + bias;
+    if e <= 0 || e >= (1i64 << ebits) { return None; }
+    Some(((neg as u64) << (ebits + fbits)) | ((e as u64) << fbits) | f)
+}
+
 /// literal-width context of the reader: ids of int / float types and of values typed by them
 #[derive(Default)]
 struct ReadCtx {
     types: HashMap<u32, (bool, u32, bool)>, // id -> (is_int, width, signed): the module's declarations wherever they stand (the printer's view)
+    multi: std::collections::HashSet<u32>,  // ids declared as a scalar type more than once: no single "declared type"
     sofar: HashMap<u32, (bool, u32, bool)>, // the same, but only from the lines read so far (the parser's view: it decides the NUMBER OF WORDS)
     sets: HashMap<u32, usize>,              // ext inst set id -> 0 GLSL / 1 OpenCL
 }
@@ -132,6 +150,9 @@ impl<'a, 'g> Reader<'a, 'g> {
                 else { let v = t.parse::<i64>().ok()?; if words == 1 && (v < i32::MIN as i64) { return None; } push(if words == 1 { (v as i32) as u32 as u64 } else { v as u64 }, out) }
             }
             Some((false, _, _)) => {
+                // decimal (Rust / C syntax) or C99 hexadecimal floating point as spirv-dis writes it (0x1.8p+3, -0x1p+128 for
+                // infinities and NaNs: the exponent field is taken literally)
+                if let Some(bits) = hex_float_bits(&t, words == 2) { return push(bits, out); }
                 if words == 2 { push(t.parse::<f64>().ok()?.to_bits(), out) } else { push(t.parse::<f32>().ok()?.to_bits() as u64, out) }
             }
         }
@@ -152,7 +173,11 @@ impl<'a, 'g> Reader<'a, 'g> {
                 let ty = self.rt.and_then(|t| self.ctx.types.get(&t).cloned());
                 let words = match self.rt.and_then(|t| self.ctx.sofar.get(&t).cloned()) { Some((_, 64, _)) => 2, _ => 1 };
                 // only OpConstant is rendered by its declared type; OpSpecConstant shows the raw bit pattern
-                if self.op == 43 { self.literal(ty, words, out)?; } else { self.literal(None, words, out)?; }
+                if self.op == 43 && self.rt.map(|t| self.ctx.multi.contains(&t)).unwrap_or(false) {
+                    // conflicting declarations of the type id: read the token by its own syntax (integer first)
+                    let save = self.p;
+                    if self.literal(Some((true, 32, true)), words, out).is_none() { self.p = save; self.literal(Some((false, 32, false)), words, out)?; }
+                } else if self.op == 43 { self.literal(ty, words, out)?; } else { self.literal(None, words, out)?; }
             }
             "PairLiteralIntegerIdRef" => {
                 // OpSwitch case literals are printed as raw unsigned bit patterns
@@ -250,6 +275,7 @@ pub fn disasm_event(v: &Vocab, m: &dr::Module, tag: &str) -> Value {
                 let t = tokenize(l);
                 if t.len() >= 4 && t[1] == "=" && (t[2] == "OpTypeInt" || t[2] == "OpTypeFloat") {
                     if let (Some(id), Ok(w)) = (id_tok(&t[0]), t[3].parse::<u32>()) {
+                        if ctx.types.contains_key(&id) { ctx.multi.insert(id); }
                         if t[2] == "OpTypeInt" { ctx.types.insert(id, (true, w, t.get(4).map(|s| s == "1").unwrap_or(false))); } else { ctx.types.insert(id, (false, w, false)); }
                     }
                 }
